@@ -74,10 +74,10 @@ theorem handleReplyStep_sets {cs cs' : CtxSt} {id : ReqId} {ok : Bool} {more : L
     (∀ k, (cs'.lsubs k).Nodup) ∧ (∀ pid po, cs'.pobj pid = some po → po.rcvs.Nodup) := by
   unfold handleReplyStep at h
   split at h
-  · simp at h
+  · simp only [Option.some.injEq, Prod.mk.injEq] at h; obtain ⟨rfl, rfl, rfl⟩ := h; exact ⟨hl, hr⟩
   · rename_i pid hpid
     split at h
-    · simp at h
+    · simp only [Option.some.injEq, Prod.mk.injEq] at h; obtain ⟨rfl, rfl, rfl⟩ := h; exact ⟨hl, hr⟩
     · rename_i po hpo
       have hpor := hr pid po hpo
       split at h
